@@ -142,6 +142,38 @@ struct EntryRunner {
     return os.str();
   }
 
+  // Running oracle, evaluated after every op: the size field plus the bytes written since the last
+  // sync point is the number of bytes streamed so far; after an op that flushes (pubsync / end) the
+  // size field alone is, and the scatter list describes exactly the bytes streamed so far.
+  std::string progress_oracle(bool flushed) {
+    std::ostringstream os;
+    size_t pending = 0;
+    if (buf->pptr() != nullptr && buf->_sync_point != nullptr && buf->pptr() > buf->_sync_point) {
+      pending = static_cast<size_t>(buf->pptr() - buf->_sync_point);
+    }
+    if (buf->_log.size + pending != streamed.size() || (flushed && buf->_log.size != streamed.size())) {
+      os << " !ORACLE(bytes size field " << buf->_log.size << " + " << pending << " unsynchronised != "
+         << streamed.size() << " bytes streamed so far)";
+      return os.str();
+    }
+    if (flushed) {
+      std::vector<struct ::iovec> iov;
+      buf->_log.append_to_iovec(alloc->page_size(), iov);
+      std::string got;
+      for (auto& v : iov) {
+        if (alloc->number(v.iov_base) == SIZE_MAX) {
+          return " !ORACLE(pages scatter list names memory that is not a live page)";
+        }
+        got.append(static_cast<const char*>(v.iov_base), v.iov_len);
+      }
+      if (got != streamed) {
+        os << " !ORACLE(bytes after flush the scatter list describes " << got.size() << " bytes, streamed "
+           << streamed.size() << (got.size() == streamed.size() ? ", content differs" : "") << ")";
+      }
+    }
+    return os.str();
+  }
+
   std::string step(const std::vector<std::string>& w) {
     std::ostringstream os;
     if (w.size() == 1 && w[0] == "reset") {
@@ -179,18 +211,18 @@ struct EntryRunner {
       if (static_cast<size_t>(r) != n) {
         s += " !ORACLE(sputn accepted " + std::to_string(r) + " of " + std::to_string(n) + ")";
       }
-      return s;
+      return s + progress_oracle(false);
     }
     if (w.size() == 1 && w[0] == "putc") {
       char c = static_cast<char>(pat(entry_no, k));
       buf->sputc(c);
       ++k;
       streamed.push_back(c);
-      return status();
+      return status() + progress_oracle(false);
     }
     if (w.size() == 1 && w[0] == "sync") {
       buf->pubsync();
-      return status();
+      return status() + progress_oracle(true);
     }
     if (w.size() == 1 && w[0] == "end") {
       LogEntry& e = buf->end();
@@ -294,6 +326,8 @@ int main(int argc, char** argv) {
 //   T logging threads write N entries each into F recording file objects (memfd-backed; every R-th
 //   check_and_get_file_descriptor of a file object returns a fresh descriptor = rotation, R=0: never),
 //   queue capacity Q, page size P; close() after the writers have joined.
+//   discard=PCT: each logging thread discard()s PCT % of its entries instead of writing them (several
+//   threads inside AsyncFileAppender::discard at the same time); nosleep=1: no pauses between entries.
 //   drain=1 (default): wait until pending_size()==0 before close().  close() on a FULL queue sleeps in
 //   futex_wait and is never woken (the consumer pops without futex wake): see patches/C20-close-lost-wakeup.diff.
 //   drain=0 slow=MS: no draining, and the first descriptor check sleeps MS milliseconds, so that the
@@ -320,6 +354,7 @@ struct Recorder {
   RecAllocator* alloc {nullptr};
 };
 static Recorder* g_rec = nullptr;
+static thread_local bool t_logging_thread = false;  // deallocate() from a logging thread = discard()
 
 extern "C" ssize_t writev(int fd, const struct iovec* iov, int cnt) {
   Recorder* rec = g_rec;
@@ -353,6 +388,9 @@ class RecAllocator2 : public RecAllocator {
       e.pages.push_back(number(pages[i]));
     }
     RecAllocator::deallocate(pages, num);
+    if (t_logging_thread) {
+      return;  // discard() by a logging thread: not an event of the writer's rounds
+    }
     if (g_rec != nullptr) {
       std::lock_guard<std::mutex> g(g_rec->mu);
       g_rec->events.push_back(std::move(e));
@@ -399,6 +437,7 @@ struct Written {
   size_t tid, seq, file, size;
   std::vector<std::pair<size_t, size_t>> iov;
   long round {-1};
+  bool discarded {false};
 };
 
 static inline uint64_t mix(uint64_t& x) {
@@ -419,7 +458,7 @@ static std::string payload(size_t tid, size_t seq, size_t len) {
 }
 
 static std::string run_one(const std::string& line) {
-  std::map<std::string, size_t> cfg {{"threads", 2}, {"ps", 64}, {"cap", 64}, {"files", 1}, {"rot", 0}, {"n", 10}, {"seed", 1}, {"drain", 1}, {"slow", 0}};
+  std::map<std::string, size_t> cfg {{"threads", 2}, {"ps", 64}, {"cap", 64}, {"files", 1}, {"rot", 0}, {"n", 10}, {"seed", 1}, {"drain", 1}, {"slow", 0}, {"discard", 0}, {"nosleep", 0}};
   {
     std::istringstream is(line);
     std::string w;
@@ -458,6 +497,7 @@ static std::string run_one(const std::string& line) {
     std::vector<std::thread> threads;
     for (size_t t = 0; t < T; ++t) {
       threads.emplace_back([&, t] {
+        t_logging_thread = true;
         uint64_t x = S * 0x9E3779B97F4A7C15ull + t * 0xD1B54A32D192ED03ull + 1;
         LogStreamBuffer buf;
         buf.set_page_allocator(alloc);
@@ -500,9 +540,14 @@ static std::string run_one(const std::string& line) {
           for (auto& v : iov) {
             w.iov.emplace_back(alloc.number(v.iov_base), v.iov_len);
           }
+          w.discarded = mix(x) % 100 < cfg.at("discard");
           per_thread[t].push_back(w);
-          app.write(e, files[w.file].get());
-          size_t z = mix(x) % 8;
+          if (w.discarded) {
+            app.discard(e);  // several logging threads are inside discard() at the same time
+          } else {
+            app.write(e, files[w.file].get());
+          }
+          size_t z = cfg.at("nosleep") != 0 ? 7 : mix(x) % 8;
           if (z == 0) {
             ::usleep(static_cast<useconds_t>(mix(x) % 300));
           } else if (z < 3) {
@@ -525,9 +570,13 @@ static std::string run_one(const std::string& line) {
 
   // ---- index the entries by their first page
   std::map<size_t, Written*> by_first_page;
-  size_t total_entries = 0;
+  size_t total_entries = 0, discards = 0;
   for (auto& v : per_thread) {
     for (auto& w : v) {
+      if (w.discarded) {
+        ++discards;
+        continue;
+      }
       ++total_entries;
       if (!w.iov.empty()) {
         by_first_page[w.iov[0].first] = &w;
@@ -656,6 +705,11 @@ static std::string run_one(const std::string& line) {
     }
     out << "\n";
   }
+  if (rounds.empty()) {
+    // no destination ever existed (every entry was discarded): the writer's rounds are not observable,
+    // the only thing it did was to pop the stop marker
+    out << "T app close\nO ok\nT app round 1 0\nO exited=1 flushes=0\n";
+  }
   out << "T app end\nO exited=1 queue=0 processed=" << total_entries << " freed=" << total_freed << "\n";
   // ---- property oracle on the files read back
   std::map<std::pair<size_t, size_t>, size_t> seen;  // (tid, seq) -> times
@@ -693,6 +747,9 @@ static std::string run_one(const std::string& line) {
         if (h[1] >= 1 && h[1] <= T && h[2] < N && per_thread[h[1] - 1][h[2]].file != f->id) {
           oracle.push_back("!ORACLE(once entry written to a file object it was not addressed to)");
         }
+        if (h[1] >= 1 && h[1] <= T && h[2] < N && per_thread[h[1] - 1][h[2]].discarded) {
+          oracle.push_back("!ORACLE(once a discarded entry reached a file)");
+        }
         pos += 16 + h[3];
       }
     }
@@ -701,6 +758,9 @@ static std::string run_one(const std::string& line) {
   for (size_t t = 0; t < T; ++t) {
     long last_round = -1;
     for (size_t i = 0; i < N; ++i) {
+      if (per_thread[t][i].discarded) {
+        continue;
+      }
       auto it = seen.find({t + 1, i});
       if (it == seen.end()) {
         ++missing;
@@ -721,14 +781,16 @@ static std::string run_one(const std::string& line) {
   }
   if (alloc.live() != 0 || alloc._bad_free != 0 || alloc._freed.size() != alloc._allocated.size()) {
     oracle.push_back("!ORACLE(returned " + std::to_string(alloc.live()) + " pages still live of " +
-                     std::to_string(alloc._allocated.size()) + " allocated, " + std::to_string(alloc._bad_free) + " bad frees)");
+                     std::to_string(alloc._allocated.size()) + " allocated, " + std::to_string(alloc._freed.size()) +
+                     " returned, " + std::to_string(alloc._bad_free) + " of them not live pages (returned twice), " +
+                     std::to_string(discards) + " entries discarded by the logging threads)");
   }
   if (maxcall > IOV_MAX) {
     oracle.push_back("!ORACLE(iovmax writev with " + std::to_string(maxcall) + " elements)");
   }
   out << "STATS entries=" << total_entries << " rounds=" << rounds.size() << " maxbatch=" << maxbatch
       << " rotations=" << rotations << " spans=" << spans << " maxcall=" << maxcall << " pages=" << alloc._allocated.size()
-      << " capacity=" << capacity << "\n";
+      << " capacity=" << capacity << " discards=" << discards << "\n";
   if (oracle.empty()) {
     out << "ORACLE ok\n";
   } else {
